@@ -76,3 +76,27 @@ From TrV Require Import Proofs.Assemble.
 Theorem C10_full : C10_full_statement.
 Proof. exact C10_assembled. Qed.
 Print Assumptions C10_full.
+
+(* ---- the no-better clause: no alternative arrives earlier (departure queries) / departs later (arrival queries) than
+   routes[0] — every alternative is an admissible journey of the ORIGINAL query (ValidAdm.alternatives_journeys,
+   OptCompose.alternatives_journeys_rev) and routes[0] is optimal (C03/C04 declarative theorems) ---- *)
+From TrV Require Import Optimal Proofs.OptCompose.
+Theorem C10_no_alternative_is_better : forall d s p acc egr rs total r0,
+  opt_domain d s p acc egr -> pos_hops_b d = true ->
+  (q_fwd p = true -> q_maxfw p <= 0) ->
+  alternatives d (conn_set d s) p acc egr = Ok (rs, total) ->
+  forall r, In r rs ->
+    if q_fwd p then rt_arr (hd r0 rs) <= rt_arr r else rt_dep r <= rt_dep (hd r0 rs).
+Proof. exact C10_no_better_proved. Qed.
+Print Assumptions C10_no_alternative_is_better.
+
+(* tie to the source: counters and continuation condition of the alternatives loop as alternatives_routing.cpp writes them *)
+From TrV Require Import Proofs.GuardsTie.
+Theorem C10_alt_counters_are_code : G.gen_alt_seq_init + 1 = 2 /\ G.gen_alt_count_init + 1 = 2.
+Proof. exact gen_alt_init_tie. Qed.
+Print Assumptions C10_alt_counters_are_code.
+Theorem C10_alt_loop_guard_is_code : forall st : alt_st,
+  G.gen_alt_cont (a_count st) MAX_ALTERNATIVES (a_seq st) MAX_VALID_ALTERNATIVES =
+  ((a_count st <? MAX_ALTERNATIVES) && (a_seq st - 1 <? MAX_VALID_ALTERNATIVES))%bool.
+Proof. exact alt_loop_guard_tie. Qed.
+Print Assumptions C10_alt_loop_guard_is_code.
